@@ -81,6 +81,15 @@ class BuiltinsMixin:
         c = self.require_class(v, 'iterable')
         if c.builtin and c.name in ('list', 'tuple'):
             return v
+        if c.builtin and c.name == 'iterator':
+            src = self.read_data_attr(v, c, '$src')
+            p0 = smt.int_of(self.read_data_attr(v, c, '$pos'))
+            if z3.is_int_value(smt.simp(p0)) and smt.simp(p0).as_long() == 0:
+                return src
+            s0 = self.get_seq(src)
+            t = self.alloc(builtin_class('tuple'))
+            self.set_seq(t, smt.simp(z3.Extract(s0, p0, z3.Length(s0) - p0)))
+            return t
         if c.builtin and c.name in ('dict', 'defaultdict', 'set', 'frozenset'):
             ks = self.concrete_keys(v)
             if ks is not None:
@@ -487,6 +496,21 @@ class BuiltinsMixin:
         start = kwargs.get('start', args[0] if args else smt.mk_int(0))
         step = kwargs.get('step', args[1] if len(args) > 1 else smt.mk_int(1))
         return self.static_val(GenObj('count', (start, step)))
+
+    def bi_asyncio_gather(self, args, kwargs, star=None):
+        """assumed contract of asyncio.gather (DESIGN 3.5): every awaitable is awaited exactly once and the
+        results come back in ARGUMENT order (under await-erasure the awaitables were already evaluated, in
+        argument order, when the argument list was built)"""
+        out = self.alloc(builtin_class('list'))
+        s = self.seq_of_items(list(args))
+        if star is not None:
+            s = z3.Concat(s, self.get_seq(star)) if args else self.get_seq(star)
+        self.set_seq(out, smt.simp(s))
+        self.ghost_note('gather', out)
+        return out
+
+    def ghost_note(self, what: str, v) -> None:
+        pass
 
     def bi_typing_TypeVar(self, args, kwargs):
         return self.static_val(ExtObject('TypeVar'))
